@@ -915,6 +915,6 @@ def run(rec, only=None):
         if only is None or sub in only:
             core.run_sharded(rec, enum_shard, 16, core.ncpu(), (sub, quick))
             rec.exhaustive[sub] = True
-    core.drive_hypothesis(rec, "seq", seq_case(), oracle_seq, 1500 if quick else 30000)
-    core.drive_hypothesis(rec, "conc", conc_case(), oracle_conc, 1000 if quick else 20000, seed_offset=1)
+    core.drive_hypothesis(rec, "seq", seq_case(), oracle_seq, 1500 if quick else 300000)
+    core.drive_hypothesis(rec, "conc", conc_case(), oracle_conc, 1000 if quick else 200000, seed_offset=1)
     rec.exhaustive["seq"] = rec.exhaustive["conc"] = False
